@@ -96,6 +96,9 @@ class Case:
         kk, ss, pp, dd = A(k), A(s), A(p), A(d)
         out = E.Outcome()
         x = env.arr(self.prefix.replace(":", "_") + "x", (N, C, H, W))
+        if sp.get("layout"):        # the image arrives as a non-contiguous view (transposed / strided) of the same values
+            from ..harness import relayout
+            x = relayout(x, sp["layout"])
         pad = env.scalar(self.prefix.replace(":", "_") + "pad", lo=-3, hi=3, kind="data")
         lH, lW = out_len(H, k[0], s[0], p[0], d[0]), out_len(W, k[1], s[1], p[1], d[1])
         Lw = lH * lW
@@ -178,6 +181,10 @@ def enumerate_specs(tier):
             b = dict(a, H=hw[1], W=hw[0], p=[p[1], p[0]])
             seq.append(dict(a, then=b))
     specs += seq[:: (4 if tier == "quick" else 1)]
+    # non-contiguous images (with and without padding)
+    for idx, (hw, k, s, p, d) in enumerate(geos[:: (5 if tier == "quick" else 2)]):
+        specs.append({"N": 2, "C": 1, "H": hw[0], "W": hw[1], "k": list(k), "s": list(s), "p": list(p), "d": list(d),
+                      "layout": "T" if idx % 2 else "S"})
     # the int form of the geometry arguments, and the defaults
     sq = [g for g in geos if all(t[0] == t[1] for t in g[1:])]
     for idx, (hw, k, s, p, d) in enumerate(sq[:: (3 if tier == "quick" else 1)]):
